@@ -66,7 +66,7 @@ def replay_state(args):
             except Exception as ex:
                 bad.append(("C06.no-error", dict(op=op, exc=type(ex).__name__, cls="interior", **where0), None, repr(ex)[:200], None))
         # whole-number bounds handed over as integer arrays / lists (the same values in another number type)
-        if np.all(lb == np.rint(lb)) and np.all(ub == np.rint(ub)):
+        if np.all(np.isfinite(ub)) and np.all(lb == np.rint(lb)) and np.all(ub == np.rint(ub)):
             reps = [("int arrays", lb.astype(int), ub.astype(int)), ("int lb, float ub", lb.astype(int), ub.copy()), ("lists", [int(v) for v in lb], [int(v) for v in ub])]
             for rname, lbr, ubr in reps:
                 try:
